@@ -129,8 +129,19 @@ def translate():
         bn[kd] = '0' if 'off' not in kws else t2.Expr({}, 'nat', sub=lambda ex, n: shp[t2.src(n)] if t2.src(n) in shp else (_ for _ in ()).throw(TranslateError('offset term ' + t2.src(n)))).tr(kws['off'])
     if bn['nodal'] != '0':
         raise TranslateError('DofsView.nodal has an offset')
-    # _expand_facets
+    # normalize_facets / normalize_elements / normalize_nodes: collection branch = guard for the empty collection, then
+    # np.unique(np.concatenate([recursive calls]))
     mt = t2.parse('skfem/mesh/mesh.py')
+    for fn, arg, types in (('normalize_facets', 'facets', '(tuple, list, set)'), ('normalize_elements', 'elements', '(tuple, list, set)'),
+                           ('normalize_nodes', 'nodes', '(list, set)')):
+        f = t2.find_def(mt, fn, 'Mesh')
+        br = [n for n in ast.walk(f) if isinstance(n, ast.If) and t2.src(n.test) == f'isinstance({arg}, {types})']
+        body = [t2.src(x) for x in t2.only(br, fn + ' collection branch').body]
+        want = [f'if len({arg}) == 0:\n    return np.array([], dtype=np.int32)',
+                f'return np.unique(np.concatenate([self.{fn}({arg[0]}) for {arg[0]} in {arg}]))']
+        if body != want:
+            raise TranslateError(f'{fn} collection branch: ' + repr(body)[:300])
+    # _expand_facets
     f = t2.find_def(mt, '_expand_facets', 'Mesh')
     body = [t2.src(s) for s in f.body if not (isinstance(s, ast.Expr) and isinstance(s.value, ast.Constant))]
     want = ['vertices = np.unique(self.facets[:, ix].flatten())',
@@ -237,7 +248,7 @@ def rand_selector(rng, n, tags, pred_masks, allow, depth=0):
         name = sorted(tags)[int(rng.integers(len(tags)))]
         tid, arr = tags[name]
         return Sel(name, f'(STag {cnat(tid)})', set(int(x) for x in arr))
-    parts = [rand_selector(rng, n, tags, pred_masks, allow - {'default', 'all'}, depth + 1) for _ in range(int(rng.integers(1, 4)))]
+    parts = [rand_selector(rng, n, tags, pred_masks, allow - {'default', 'all'}, depth + 1) for _ in range(int(rng.integers(0, 4)))]
     kind = int(rng.integers(3))
     if kind == 2 and all(isinstance(p.py, (int, str)) and not isinstance(p.py, bool) for p in parts):
         py = set(p.py for p in parts)
@@ -561,6 +572,16 @@ def oracle_context(ctx, c, rng):
                          f'{c.name} on {type(m).__name__}: get_dofs().drop([{nm!r}]).{kd.lower()} = {sorted(got.items())[:4]} (name ids '
                          f'{c.name_ids}) but the DOFs carrying each surviving name are {sorted(want.items())[:4]}',
                          dict(data, dropped=nm, kind_of_dofs=kd, dofnames=c.names))
+    # the empty list / tuple / set denotes the empty set
+    for kw, val in (('facets', []), ('facets', ()), ('facets', set()), ('elements', []), ('elements', ()), ('nodes', [])):
+        ctx.count(('empty', c.kind, c.name, kw, type(val).__name__), nontrivial=False)
+        try:
+            got = b.get_dofs(**{kw: val}).flatten().tolist()
+        except Exception as ex:
+            got = f'{type(ex).__name__}: {ex}'
+        if got != []:
+            ctx.fail('selector:empty-collection', f'get_dofs({kw}={val!r}) on {type(m).__name__}/{c.name} gives {got!r:.80}; the empty '
+                     f'collection denotes the empty set of entities, the query must return no DOFs', dict(data, selector=repr(val), arg=kw))
     # elements / nodes
     nt = m.t.shape[1]
     E = rng.integers(0, nt, size=int(rng.integers(1, 4)))
@@ -682,7 +703,8 @@ def run(ctx):
                                   'got': r, 'want': want})
                 except Exception as ex:      # an accepted selector form must not raise
                     outs.append('None')
-                    ctx.fail(f'elem={name}:{kind}:query-exception', f'get_dofs raises {type(ex).__name__}: {ex} for {desc}',
+                    ctx.fail('selector:empty-collection' if 'need at least one array' in str(ex) else f'elem={name}:{kind}:query-exception',
+                             f'get_dofs raises {type(ex).__name__}: {ex} for {desc}',
                              {'kind': kind, 'element': name, 'p': c.m.p.tolist(), 't': c.m.t.tolist(), 'query': repr(desc)})
             cases.append((f'({c.coq()}, {clist([q[0] for q in qs])})', clist(outs), (kind, name, [q[2] for q in qs], c.m.t.tolist())))
             if len(ctx.cov['samples']) < 4:
